@@ -40,7 +40,7 @@ RULE = ("dp cases: ensemble = 0-2 extra axes x 0-2 scan axes, pattern 2-28 x 2-2
 CLAUSES = ["dp-total:sampling-uniform", "dp-total:sampling-float", "dp-total:sampling-per-axis", "dp-total:gpts", "dp-grid",
            "img-same-grid", "img-mean", "source-size-commutes", "source-size-reference"]
 QUICK = dict(n=520, time=45)
-THOROUGH = dict(n=12000, time=300, shards=16)
+THOROUGH = dict(n=96000, time=480, shards=16)
 ASSUMPTIONS = ["diffraction patterns are non-negative with a positive total; 85% have a positive background, 15% are sparse (exact zeros between spots)",
                "pattern axes have >= 2 pixels; scan axes are ScanAxis with two main axes for the source-size clause",
                "image mean clause is judged for normalization='values' (the default)"]
